@@ -39,7 +39,9 @@ def _job(args):
             res["violations"].append({"monitor": m, "kind": "monitor-crash", "what": traceback.format_exc()[-1500:]})
     if acc is not None:
         from . import render
-        lines, idx = render.render(run.trace, log_size=spec.get("log_size", 0) if acc_log is None else acc_log, hidden=acc, end_t=run.now,
+        # the acceptor models ONE connection: events of another connection / API object alive in the same process are not its business
+        acc_trace = monitors.first_connection_only(run.trace) if (spec.get("other_device") or spec.get("second")) else run.trace
+        lines, idx = render.render(acc_trace, log_size=spec.get("log_size", 0) if acc_log is None else acc_log, hidden=acc, end_t=run.now,
                                    snapshots=acc_log is None)
         try:
             out = core.run_driver("accept", lines, timeout=180)
